@@ -26,14 +26,18 @@ PLANS["C14"] = {
         "u1::eval_binary_orders_6": "cross-check: all orders of 6 operators (bounded)",
     },
     "cex_map": {
-        "word_get_previous": ["u1::word_tracker"], "word_get_next": ["u1::word_tracker"], "ignore": ["u1::word_tracker", "u1::slice_tracker_3"],
-        "max_len": ["u1::word_tracker", "u1::slice_tracker_3"], "consume_next": ["u1::eval_binary_orders_4"],
+        "word_get_previous": ["u1::word_tracker"], "word_get_next": ["u1::word_tracker"], "usize::ignore": ["u1::word_tracker"], "[usize]::ignore": ["u1::slice_tracker_3"],
+        "usize::max_len": ["u1::word_tracker"], "[usize]::max_len": ["u1::slice_tracker_3"], "NumberTracker::consume_next": ["u1::eval_binary_orders_4"],
         "slice_get_previous": ["u1::slice_tracker_3"], "slice_get_next": ["u1::slice_tracker_3"], "slice_ignore": ["u1::slice_tracker_3"],
-        "eval_binary": ["u1::eval_binary_orders_4", "u1::eval_binary_orders_4_slice"], "eval_numbers": [], "deep_eval_relaxed_tracker_site": [],
+        "eval_binary": ["u1::eval_binary_orders_4", "u1::eval_binary_orders_4_slice"], "eval_numbers": [], "deep_eval_relaxed_tracker_site": [], "flatex_to_deepex_tracker_loop": [],
     },
+    # functions whose whole contract is also discharged by a complete Kani harness on the unextracted code
+    "complete_cross_checks": {"word_get_previous": ["u1::word_tracker"], "word_get_next": ["u1::word_tracker"], "usize::ignore": ["u1::word_tracker"],
+                              "usize::max_len": ["u1::word_tracker"]},
     "cex_native": {
         "eval_numbers": [("u1::eval_numbers_boundary_65", ["00", "01"]), ("u1::eval_numbers_boundary_66", ["00", "01"]), ("u1::eval_numbers_boundary_64", ["00", "01"])],
         "deep_eval_relaxed_tracker_site": [("u1::deep_eval_boundary", ["40", "41", "42", "7f", "80", "81"])],
+        "flatex_to_deepex_tracker_loop": [("u1::flat2deep_boundary", ["4000", "4100", "413f", "4140", "4200", "7f7e", "8000", "807f", "8100", "c100", "c1c0"])],
     },
     "trusted_base": [
         A_VERUS,
@@ -48,7 +52,6 @@ PLANS["C14"] = {
                     "SmallVec behaves as Vec (R3) in eval_numbers",
                     "max_len of a slice tracker does not overflow (slices of >= 2^58 words are not considered)"],
     "not_covered": [
-        "the inlined copy of the reduction loop in flat.rs flatex_to_deepex",
         "that prioritized_indices_* return a permutation (pre-condition of eval_binary; decided boundedly under C01)",
     ],
     "bounds": {"all": ["Verus part: none (all chain lengths, all orders, all word counts)",
@@ -69,7 +72,7 @@ VALUE_TRUST = [
     A_CBMC, A_FMT, A_NOOVF,
     "table entries are verified as text cut from /repo/src/value.rs on every run (extract/gen_tables.py): G1 private functions are called through the hook's one-line forwarding wrappers, G3 association entry<->text is by source position, G4 the entry expression is called directly instead of through the fn pointer stored in the table",
     "float primitives (sin, cos, ..., powf, powi, atan2) are uninterpreted: replaced by distinct tag functions via -Z stubbing; floor/ceil/round/trunc/fract/abs/signum/min/max and + - * / use CBMC's IEEE-754 model",
-    "instantiation Val<i32, f64> only (i64 / f32 are not covered)",
+    "C16: instantiation Val<i32, f64> only; C17: Val<i32, f64> and Val<i64, f32>",
 ]
 
 
@@ -80,10 +83,18 @@ def c16_kani(tier, gen):
     return hs
 
 
+# entries whose code converts between integer / float / usize types: their second-instantiation
+# (Val<i64, f32>) totality harness is part of the quick tier, all others are thorough-only
+C17_QUICK_I64_F32 = {"tg_caret_bin", "tg_to_int_un", "tg_to_float_un", "tg_fact_un", "tg_lt_lt_bin", "tg_gt_gt_bin", "tg_period_bin",
+                     "tg_percent_bin", "tg_slash_bin", "tg_atan2_bin", "tg_minus_un", "tg_abs_un"}
+
+
 def c17_kani(tier, gen):
-    hs = ["vgen::" + h for h in gen["value_harnesses"]["total_scalar"]]
+    vh = gen["value_harnesses"]
+    hs = ["vgen::" + h for h in vh["total_scalar"]]
+    hs += ["vgen::" + h for h in vh["total_i64_f32"] if tier == "thorough" or h in C17_QUICK_I64_F32]
     if tier == "thorough":
-        hs += ["vgen::" + h for h in gen["value_harnesses"]["total_array"]]
+        hs += ["vgen::" + h for h in vh["total_array"]]
     return hs
 
 
@@ -117,8 +128,9 @@ PLANS["C17"] = {
     "assumptions": VALUE_TRUST,
     "not_covered": ["panics reachable only through parse-time folding of literals are the same operator calls; the parser path itself is not executed",
                     "arrays longer than 3 entries (thorough tier covers 0..=3)"],
-    "bounds": {"quick": ["scalar operands, complete: all 25 ordered kind pairs x all 2^32 / 2^64 payload values per entry"],
-               "thorough": ["as quick, plus every kind pair involving arrays of length 0..=3"]},
+    "bounds": {"quick": ["scalar operands, complete: all 25 ordered kind pairs x all 2^32 / 2^64 payload values per entry (Val<i32, f64>)",
+                         "second instantiation Val<i64, f32> for the 12 entries that convert between number types"],
+               "thorough": ["as quick, plus every kind pair involving arrays of length 0..=3, plus Val<i64, f32> for every entry"]},
     "explanation": "C17 is the contract `returns` (no panic, no overflow, no failed unwrap, no out-of-bounds) on every entry of the value table; one generated harness per entry.",
 }
 PLANS["C19"] = {
@@ -146,7 +158,7 @@ PLANS["C01"] = {
                           "u6::flat_perm_desc_4", "u6::flat_ltr_4", "u6::flat_last_4", "u6::deep_perm_desc_4", "u6::deep_ltr_4"]},
     "kani_timeout": {"quick": 900, "thorough": 3000},
     "owns_unprefixed": True,
-    "cex_map": PLANS["C14"]["cex_map"], "cex_native": PLANS["C14"]["cex_native"],
+    "cex_map": PLANS["C14"]["cex_map"], "cex_native": PLANS["C14"]["cex_native"], "complete_cross_checks": PLANS["C14"]["complete_cross_checks"],
     "trusted_base": PLANS["C14"]["trusted_base"] + [A_CBMC, A_FMT, A_NOOVF,
         "A-attach (read from flat.rs make_expression / flatten_vecs, not verified): the unary chain of a parenthesis group is attached to the right-most operator of minimal priority of that group"],
     "assumptions": [A_VERUS, A_CBMC, A_FMT, A_NOOVF],
@@ -200,12 +212,49 @@ PLANS["C15"] = {
 }
 PLANS["C04"] = {
     "level": "model_checking",
-    "kani": {"quick": ["c04::arity_eval", "c04::arity_eval_relaxed"], "thorough": ["c04::arity_eval", "c04::arity_eval_relaxed"]},
+    "kani": {"quick": ["c04::arity_eval", "c04::arity_eval_relaxed", "c04::arity_eval_vec", "c04::arity_eval_iter"],
+             "thorough": ["c04::arity_eval", "c04::arity_eval_relaxed", "c04::arity_eval_vec", "c04::arity_eval_iter"]},
     "kani_timeout": {"quick": 900, "thorough": 2400},
     "owns_unprefixed": True,
     "trusted_base": [A_CBMC, A_FMT, A_NOOVF], "assumptions": [A_CBMC, A_FMT, A_NOOVF],
     "not_covered": ["brace tokenisation", "find_parsed_vars / find_var_index (name collection, order and lookup)", "reset_vars / var_names_union and derived expressions",
-                    "eval_vec / eval_iter guards", "the deep form's guards"],
-    "bounds": {"all": ["one-node FlatEx over two variables, symbolic variable index, value slices of symbolic length 0..=4 with symbolic values"]},
+                    "the deep form's guards"],
+    "bounds": {"all": ["one-node FlatEx over two variables, symbolic variable index, value slices / vectors / iterators of length 0..=4 with symbolic values"]},
     "explanation": "Partial, bounded: arity guards and index binding of the flat form.",
+}
+
+
+# ---------------------------------------------------------------------------------------------
+# functions of /repo under a Kani contract, per property: (file, regex locating the item, harnesses)
+# the driver resolves file:line at run time (never by line number)
+KANI_TARGETS = {
+    "C14": [("src/expression/number_tracker.rs", r"^impl NumberTracker for usize", "u1::word_tracker (complete)"),
+            ("src/expression/number_tracker.rs", r"^impl NumberTracker for \[usize\]", "u1::slice_tracker_* (bounded by word count)"),
+            ("src/expression/mod.rs", r"^pub fn eval_binary<", "u1::eval_binary_orders_* (bounded by operator count)")],
+    "C01": [("src/parser.rs", r"^pub fn is_operator_binary<", "u5::is_operator_binary_all (complete)"),
+            ("src/operators.rs", r"^    pub fn apply\(&self, x: T\) -> T", "u4::unary_apply (chains <= 4)"),
+            ("src/operators.rs", r"^    pub fn append_after\(", "u4::unary_append_after"),
+            ("src/operators.rs", r"^    pub fn append_after_iter<", "u4::unary_append_iter"),
+            ("src/operators.rs", r"^    pub fn remove_latest\(", "u4::unary_remove_latest"),
+            ("src/expression/flat.rs", r"^    impl<T: Clone> OperateBinary<T> for FlatOp<T>", "u4::flatop_apply"),
+            ("src/expression/flat.rs", r"^    pub\(super\) fn prioritized_indices_flat<", "u6::flat_* (bounded: 3 / 4 operators)"),
+            ("src/expression/deep.rs", r"^pub fn prioritized_indices<", "u6::deep_* (bounded: 3 / 4 operators)")],
+    "C13": [("src/parser.rs", r"^pub fn is_operator_binary<", "u5::is_operator_binary_all (complete)"),
+            ("src/parser.rs", r"^pub fn is_numeric_text\(", "u5::numeric_text_* (ASCII strings up to the bound)")],
+    "C09": [("src/expression/partial.rs", r"^pub fn check_partial_index\(", "u5::partial_index (complete)")],
+    "C07": [("src/parser.rs", r"^pub fn check_parsed_token_preconditions<", "c07::preconditions_len_* (bounded by sequence length)"),
+            ("src/parser.rs", r"^fn make_pair_pre_conditions<", "reached through check_parsed_token_preconditions")],
+    "C15": [("src/expression/flat.rs", r"^    pub\(super\) fn eval_flatex_consuming_vars<", "c15::consuming_vs_cloning_* (bounded by node count)"),
+            ("src/expression/flat.rs", r"^    pub\(super\) fn eval_flatex_cloning<", "c15::consuming_vs_cloning_*"),
+            ("src/expression/flat.rs", r"^    fn eval_numbers<", "reached through both evaluators")],
+    "C04": [("src/expression/flat.rs", r"^    fn eval\(&self, vars: &\[T\]\) -> ExResult<T>", "c04::arity_eval"),
+            ("src/expression/flat.rs", r"^    fn eval_relaxed\(&self, vars: &\[T\]\) -> ExResult<T>", "c04::arity_eval_relaxed"),
+            ("src/expression/flat.rs", r"^    pub fn eval_vec\(", "c04::arity_eval_vec"),
+            ("src/expression/flat.rs", r"^    pub fn eval_iter\(", "c04::arity_eval_iter")],
+    "C16": [("src/value.rs", r"^    fn make<'a>\(\) -> Vec<Operator<'a, Val<I, F>>>", "every entry, as extracted text: u7::* and vgen::ac_*"),
+            ("src/value.rs", r"^impl<I, F> PartialEq<Val<I, F>> for Val<I, F>", "u7::cmp_eq_ord through the == / != entries"),
+            ("src/value.rs", r"^impl<I, F> PartialOrd<Val<I, F>> for Val<I, F>", "u7::cmp_eq_ord through the < <= > >= entries"),
+            ("src/value.rs", r"^    pub fn to_bool\(self\)", "u7::conv_to_bool, u7::if_else")],
+    "C17": [("src/value.rs", r"^    fn make<'a>\(\) -> Vec<Operator<'a, Val<I, F>>>", "every entry, as extracted text: vgen::t_* / ta_* / tg_* (one per entry)")],
+    "C19": [("src/operators.rs", r"^    fn make<'a>\(\) -> Vec<Operator<'a, T>>", "every entry, as extracted text: u8_float::float_table_f64 / _f32; thorough: the run-time table")],
 }
